@@ -37,7 +37,7 @@ def universe(t_, sd):
     if t_ != "quick":
         base += G.curated()[::2]
         rng = random.Random(sd * 313 + 5)
-        base += [G.random_shape(rng, 2) for _ in range(40)]
+        base += [G.random_shape(rng, 2) for _ in range(120)]
     return G._dedup(base)
 
 
